@@ -224,7 +224,7 @@ impl<'a> Gen<'a> {
             self.g8.push(v); // readable like a char (never assigned: see is_assignable)
         }
         if self.cfg.hw {
-            for (i, a) in [0x02u16, 0x10, 0x1b].iter().enumerate() {
+            for (i, a) in [0x02u16, 0x10, 0x1b, 0x0280].iter().enumerate() {
                 let v = self.add_var(format!("HW{}", i), VarKind::HwReg(*a), MemClass::Zp, Scope::Global);
                 self.hw.push(v);
             }
@@ -1612,4 +1612,104 @@ pub fn gen_input(p: &Program, tag: &str, index: u64, k: u64) -> State {
     st.x = rng.bbyte() as i64;
     st.y = rng.bbyte() as i64;
     st
+}
+
+// ------------------------------------------------------------------------------------------
+// Label-stress profile (C13, also C12/C14): the same function inlined 1-5 times, inline inside
+// inline, loops / switch / goto / early return inside inlined bodies, long bodies inside
+// inlined code (long-branch repair + label renaming).
+
+impl<'a> Gen<'a> {
+    fn forced_calls(&mut self, f: usize, n: usize) -> Vec<Stmt> {
+        let mut v = Vec::new();
+        for _ in 0..n {
+            self.st_reset();
+            let save = self.callable.clone();
+            self.callable = vec![f];
+            if let Some(c) = self.call_expr(false) {
+                // use the value when there is one, in a larger expression sometimes
+                if self.p.funcs[f].ret.is_some() && self.rng.chance(1, 2) {
+                    let d = self.g8[0];
+                    if self.rng.chance(1, 2) {
+                        v.push(Stmt::Expr(Expr::Assign(LV::Var(d), Box::new(c))));
+                    } else {
+                        let k = self.const8();
+                        v.push(Stmt::Expr(Expr::Assign(
+                            LV::Var(d),
+                            Box::new(Expr::Bin(BinOp::Add, Box::new(c), Box::new(k))),
+                        )));
+                    }
+                } else {
+                    v.push(Stmt::Expr(c));
+                }
+            }
+            self.callable = save;
+        }
+        v
+    }
+
+    fn long_if(&mut self) -> Stmt {
+        let g = self.g8[0];
+        let n = self.rng.range(26, 40) as usize;
+        let mut b = Vec::new();
+        for i in 0..n {
+            b.push(Stmt::Expr(Expr::Assign(LV::Var(self.g8[1 % self.g8.len()]), Box::new(Expr::Num((i as i32 * 7 + 1) & 0xff)))));
+        }
+        self.st_reset();
+        let c = self.cond(0);
+        let _ = g;
+        Stmt::If(c, Box::new(Stmt::Block(b)), None)
+    }
+
+    pub fn stress(mut self) -> Program {
+        self.globals();
+        // make sure the unprotected globals used by forced statements are plain variables
+        let mut f0 = self.function(0, "f0", false);
+        f0.inline = true;
+        if self.rng.chance(1, 3) {
+            let s = self.long_if();
+            let at = f0.body.len().saturating_sub(1);
+            f0.body.insert(at, s);
+        }
+        self.p.funcs.push(f0);
+        self.callable.push(0);
+        let mut f1 = self.function(1, "f1", false);
+        f1.inline = self.rng.chance(2, 3);
+        let n = self.rng.range(1, 2) as usize;
+        let calls = self.forced_calls(0, n);
+        let at = f1.body.len().saturating_sub(1);
+        for c in calls {
+            f1.body.insert(at, c);
+        }
+        self.p.funcs.push(f1);
+        self.callable.push(1);
+        let mut f2 = self.function(2, "f2", false);
+        f2.inline = false;
+        let calls = self.forced_calls(1, 1);
+        let at = f2.body.len().saturating_sub(1);
+        for c in calls {
+            f2.body.insert(at, c);
+        }
+        self.p.funcs.push(f2);
+        self.callable.push(2);
+        let mut m = self.function(3, "main", true);
+        let k = self.rng.range(1, 5) as usize;
+        let mut extra = self.forced_calls(0, k);
+        extra.extend(self.forced_calls(1, 2));
+        extra.extend(self.forced_calls(2, 1));
+        // spread them through main
+        for c in extra {
+            let at = self.rng.below(m.body.len() as u64 + 1) as usize;
+            // never before the leading declarations / pointer set-up
+            let lead = m.body.iter().take_while(|s| matches!(s, Stmt::Decl(..)) || matches!(s, Stmt::Expr(Expr::Assign(_, e)) if matches!(**e, Expr::AddrOf(_)))).count();
+            m.body.insert(at.max(lead), c);
+        }
+        self.p.funcs.push(m);
+        self.p
+    }
+}
+
+pub fn stress_program(index: u64, cfg: &GenCfg) -> Program {
+    let rng = Rng::for_case("stress", index);
+    Gen::new(rng, cfg).stress()
 }
